@@ -54,6 +54,16 @@ theorem writer_calls_short_write_sim {acc : Bytes → Nat} (ha : AccOk acc) (ext
       ∃ site, Out.panic site ∈ (runCalls ext calls s none d).1) :=
   GW.run_sim ha ext sch calls s d sd ⟨hb, hp⟩
 
+/-- **What the caller is told never depends on the schedule.**  Every call sequence (admissible or not),
+from every writer state, over every sink: the per-call outcomes over the short-writing sink are those of the
+whole-write run - also after a 4 GiB refusal (a closed writer answers every call without I/O, as a function
+of the call, its two mode flags and the comment length: `GW.step_closed`, `GW.closedStep`), and up to and
+including a panic. -/
+theorem writer_outcomes_short_write_independent {acc : Bytes → Nat} (ha : AccOk acc) (ext : WExt)
+    (sch : Nat → Nat) (calls : List Call) (s : WState) (d sd : Dev) (hb : sd.buf = d.buf) (hp : sd.pos = d.pos) :
+    (GW.runCallsS acc ext calls s sch sd).1 = (runCalls ext calls s none d).1 :=
+  (GW.run_outcomes ha ext sch calls s d sd ⟨hb, hp⟩).symm
+
 /-- **The archive a writer produces is byte-identical however the sink accepts short writes.**  A fresh
 writer, any admissible call sequence (C12's quantifier), any sink contents and position to start from, any
 short-write schedule of the sink, any accept counts of the encoders: if no call of the whole-write run
@@ -112,14 +122,16 @@ def nearLimit : WState :=
   let s := (runCalls ext0 [.startFile [0x61] (opts .stored none)] WState.init none (Dev.ofBytes [])).2.1
   { s with statsBytes := 4294967294 }
 
-/-- `write_all([1,2,3,4])` in that state: both runs are refused with `Err(Other)`; the whole-write sink has
-received all four bytes, the sink that accepts one byte per call only two. -/
-def refusalWhole := runCalls ext0 [.write [1, 2, 3, 4]] nearLimit none { buf := [], pos := 31, calls := 0 }
-def refusalShort := GW.runCallsS (fun b => b.length) ext0 [.write [1, 2, 3, 4]] nearLimit (fun _ => 1)
+/-- `write_all([1,2,3,4])`, then `finish()`, in that state: both runs are refused with `Err(Other)` and then
+answer `BrokenPipe`; the whole-write sink has received all four bytes, the sink that accepts one byte per call
+only two. -/
+def refusalWhole := runCalls ext0 [.write [1, 2, 3, 4], .finish] nearLimit none { buf := [], pos := 31, calls := 0 }
+def refusalShort := GW.runCallsS (fun b => b.length) ext0 [.write [1, 2, 3, 4], .finish] nearLimit (fun _ => 1)
   { buf := [], pos := 31, calls := 0 }
 
 theorem refusal_bytes_depend_on_schedule :
-    refusalWhole.1 = [.err (.io .other)] ∧ refusalShort.1 = [.err (.io .other)] ∧
+    refusalWhole.1 = [.err (.io .other), .err (.io .brokenPipe)] ∧
+    refusalShort.1 = [.err (.io .other), .err (.io .brokenPipe)] ∧
       refusalWhole.2.2.buf.length = 35 ∧ refusalShort.2.2.buf.length = 33 ∧
       refusalWhole.2.1.inner = .closed ∧ refusalShort.2.1.inner = .closed := by
   decide +kernel
